@@ -449,3 +449,86 @@ func (lu *listUse) check(fn *ssa.Function, list ssa.Value, start ssa.Instruction
 	}
 	return problem
 }
+
+// R-ASSIGNTARGET: an index step of an assignment target is never applied to a string.
+//
+// Strings are immutable in Evy: `s[0] = "x"` is rejected by the parser, and the evaluator's index assignment has no
+// case for a string container (it ends the run with an internal type error). The parser therefore tests the type of
+// the node it is about to index at every step of the target chain, not only for the variable the chain starts with:
+// each call that builds an index expression on the loop-carried node is dominated by the edge on which that same
+// node's type was compared with string and found different.
+var ruleAssignTarget = &Rule{
+	ID: "R-ASSIGNTARGET",
+	Doc: "in parseAssignmentTarget every index step is applied to the node whose type was just compared with string (and found different): a string reached through an " +
+		"earlier index or field step (`names[0][0] = \"x\"`) is rejected like a string variable",
+	Floor: 1,
+	Run:   runAssignTarget,
+}
+
+func runAssignTarget(c *Ctx, r *Reporter) {
+	p, pkg := parserPkg(c, r)
+	if pkg == nil {
+		return
+	}
+	fd := FindFunc(pkg, "(*parser).parseAssignmentTarget")
+	if fd == nil {
+		r.Undecided("(*parser).parseAssignmentTarget not found")
+		return
+	}
+	sf := p.SSAFunc(fd.Obj)
+	n := 0
+	for _, b := range sf.Blocks {
+		for _, ins := range b.Instrs {
+			call, ok := ins.(*ssa.Call)
+			if !ok || call.Call.StaticCallee() == nil || call.Call.StaticCallee().Name() != "parseIndexOrSliceExpr" || len(call.Call.Args) < 2 {
+				continue
+			}
+			n++
+			target := call.Call.Args[1]
+			guarded := false
+			for d := b; d != nil; d = d.Idom() {
+				id := d.Idom()
+				if id == nil || len(id.Instrs) == 0 {
+					continue
+				}
+				ifi, ok := id.Instrs[len(id.Instrs)-1].(*ssa.If)
+				if !ok {
+					continue
+				}
+				bo, ok := ifi.Cond.(*ssa.BinOp)
+				if !ok || (bo.Op != token.EQL && bo.Op != token.NEQ) {
+					continue
+				}
+				isStringType := func(v ssa.Value) bool {
+					u, ok := v.(*ssa.UnOp)
+					if !ok {
+						return false
+					}
+					g, ok := u.X.(*ssa.Global)
+					return ok && g.Name() == "STRING_TYPE"
+				}
+				typeOfTarget := func(v ssa.Value) bool {
+					cl, ok := v.(*ssa.Call)
+					return ok && cl.Call.IsInvoke() && cl.Call.Method.Name() == "Type" && cl.Call.Value == target
+				}
+				if !(typeOfTarget(bo.X) && isStringType(bo.Y)) && !(typeOfTarget(bo.Y) && isStringType(bo.X)) {
+					continue
+				}
+				edge := 1
+				if bo.Op == token.NEQ {
+					edge = 0
+				}
+				if edgeDominates(id, edge, b) {
+					guarded = true
+				}
+			}
+			r.Check(guarded, fmt.Sprintf("%s#index-step[%d]", fd.QName(), n), p.Rel(instrPos(call)),
+				"the node that is indexed was compared with the string type on the way, and is not a string",
+				"an index step of an assignment target is applied to a node whose own type was not tested against string on this path (the test looks at another node, e.g. only at the "+
+					"variable the chain starts with): `names[0][0] = \"x\"` is accepted and ends the run with an internal type error instead of the documented parse error")
+		}
+	}
+	if n == 0 {
+		r.Undecided("parseAssignmentTarget builds no index expression")
+	}
+}
